@@ -37,10 +37,13 @@ abbrev NoS1 (st : St α) : Prop := AllEv NotS1 st
 abbrev NoWrite (st : St α) : Prop := AllEv NotWrite st
 
 
-/-- everything before the export of the state writes nothing to `s1` — in both variants -/
-theorem prefix_noS1 (s : Script α) (smt : SMType) (st : St α) (h : NoS1 st) :
-    ((stepIntegrate s smt st)).Sat (always NoS1) :=
-  stepIntegrate_all NotS1 s smt st h (by simp [NotS1]) (by simp [NotS1]) (by simp [NotS1]) (by simp [NotS1])
+/-- no run of `pre` (everything up to a successful `computeAPosterioriTimeStepScalingFactor`, and the
+whole prediction branch) stores anything in `s1` — in every variant -/
+theorem pre_noS1 (v : Variant) (s : Script α) (st : St α) (h : NoS1 st) :
+    (pre v s st).Sat (always NoS1) :=
+  pre_all NotS1 v s st (fun e he => by
+    cases e <;> simp_all [PreEv, NotS1]
+    rcases he with ⟨he | he, _⟩ <;> simp [he, Out.isS1]) h
 
 /-- repaired order: whatever way the tail ends *other than falling through*, nothing was stored in `s1` -/
 theorem tailLate_spec (s : Script α) (ke : α) (st : St α) (h : NoS1 st) :
@@ -69,22 +72,16 @@ theorem body_late_spec (p : Bool) (s : Script α) (st : St α) (h : NoS1 st) :
     (body ⟨true, p⟩ s st).Sat ⟨fun _ => True, fun _ => NoS1, fun _ => NoS1⟩ := by
   unfold body
   apply R.bind_sat NoS1
-  · exact stepInit_all NotS1 s st h (by simp [NotS1])
+  · exact R.sat_mono (pre_noS1 _ s st h) (by simp [always]) (by simp [always]) (by simp [always])
   · intro st h
-    apply R.bind_sat NoS1
-    · exact stepCheckBounds_all NotS1 s st h (by simp [NotS1]) (by simp [NotS1]) (by simp [NotS1])
-    · intro st h
-      simp only []
-      split
-      · exact R.sat_mono (stepPred_all NotS1 _ s st h (by simp [NotS1]) (by simp [NotS1, Out.isS1])
-          (by simp [NotS1]) (by simp [NotS1]) (by simp [NotS1, Out.isS1]))
-          (by simp [always]) (by simp [always]) (by simp [always])
-      · split
-        · simpa using h
-        · apply R.bind_sat NoS1
-          · exact prefix_noS1 s _ st h
-          · intro st h
-            exact tailLate_spec s _ st h
+    simpa using tailLate_spec s _ st h
+
+theorem written_noS1 (r : Result α) (h : NoS1 r.st) : ∀ o ∈ r.written, o.isS1 = false := by
+  intro o ho
+  simp only [Result.written, List.mem_filterMap] at ho
+  obtain ⟨e, he, heo⟩ := ho
+  have := h e he
+  cases e <;> simp_all [Event.isWrite, NotS1]
 
 /-- **C40, full strength, repaired order** (patches/C40-integrate.diff): for every script — failure or
 exception injected at any stage, any traits, any `K[0]` — a call that returns `-1` has stored nothing in
@@ -93,21 +90,113 @@ theorem failed_integration_leaves_s1_untouched (p : Bool) (s : Script α)
     (h : (integrate ⟨true, p⟩ s).ret = -1) :
     ∀ o ∈ (integrate ⟨true, p⟩ s).written, o.isS1 = false := by
   have hb := body_late_spec p s (st0 s) (by simp [st0, NoS1, AllEv, NotS1])
-  have key : NoS1 (integrate ⟨true, p⟩ s).st := by
-    simp only [integrate] at h ⊢
-    generalize body ⟨true, p⟩ s (st0 s) = r at hb h ⊢
-    cases r with
-    | next st =>
-      simp only [] at h
-      split at h <;> simp at h
-    | ret c st => simpa using hb
-    | thr m st =>
-      simp only [R.sat_thr] at hb
-      simp_all [NoS1, AllEv, NotS1]
-  intro o ho
-  simp only [Result.written, List.mem_filterMap] at ho
-  obtain ⟨e, he, heo⟩ := ho
-  have := key e he
-  cases e <;> simp_all [Event.isWrite, NotS1]
+  apply written_noS1
+  simp only [integrate] at h ⊢
+  generalize body ⟨true, p⟩ s (st0 s) = r at hb h ⊢
+  cases r with
+  | next st =>
+    simp only [] at h
+    split at h <;> simp at h
+  | ret c st => simpa using hb
+  | thr m st =>
+    simp only [R.sat_thr] at hb
+    simp_all [NoS1, AllEv, NotS1]
+
+/-! ### the order shipped before the patch
+
+The same statement is **false** for `lateExport = false`: `shipped_order_failure_after_export` below exhibits
+the failing histories, and `shipped_order_s1_written_on_failure_iff` shows they are the only ones. What
+holds of that order is the `_partial` theorem: a failure *before* the export leaves `s1` untouched.
+
+Full statement wanted (not provable for `lateExport = false`):
+  theorem failed_integration_leaves_s1_untouched' (v : Variant) (s : Script α)
+      (h : (integrate v s).ret = -1) : ∀ o ∈ (integrate v s).written, o.isS1 = false
+-/
+
+theorem tailEarly_exported (s : Script α) (ke : α) (st : St α) :
+    (stepExportState st).ev <+: (tailEarly s ke st).st.ev := by
+  unfold tailEarly
+  apply R.bind_prefix
+  · split
+    · exact stepExportTO_prefix s .k _
+    · simp
+  · intro st
+    apply R.bind_prefix _ _ _ (stepEnergyCompute_prefix _ _ _ _ st)
+    intro st
+    apply R.bind_prefix _ _ _ ((storeIf_prefix _ _ st).trans (stepEnergyCompute_prefix _ _ _ _ _))
+    intro st
+    split
+    · apply R.bind_prefix _ _ _ ((storeIf_prefix _ _ st).trans (stepSosCompute_prefix _ _ _))
+      intro st; simp [List.prefix_append]
+    · simpa using storeIf_prefix _ _ st
+
+theorem R.bind_eq_next {r : R α} {f : St α → R α} {st' : St α} (h : r.bind f = .next st') :
+    ∃ st1, r = .next st1 ∧ f st1 = .next st' := by
+  cases r <;> simp_all [R.bind]
+
+theorem tailLate_next_exported (s : Script α) (ke : α) (st st' : St α) (h : tailLate s ke st = .next st') :
+    Event.exp ∈ st'.ev := by
+  unfold tailLate at h
+  obtain ⟨s1, _, h⟩ := R.bind_eq_next h
+  obtain ⟨s2, _, h⟩ := R.bind_eq_next h
+  obtain ⟨s3, _, h⟩ := R.bind_eq_next h
+  obtain ⟨s4, _, h⟩ := R.bind_eq_next h
+  injection h with h
+  subst h
+  have h0 : Event.exp ∈ (stepExportState s4).ev := by simp [stepExportState]
+  exact ((storeIf_prefix _ _ _).trans ((storeIf_prefix _ _ _).trans (storeIf_prefix _ _ _))).subset h0
+
+/-- the events of a run contain those of the `try` block -/
+theorem integrate_ev_of_body (v : Variant) (s : Script α) :
+    (body v s (st0 s)).st.ev <+: (integrate v s).st.ev := by
+  unfold integrate
+  split <;> rename_i heq <;> simp [heq, List.prefix_append]
+
+/-- **C40, shipped order, what is provable** — missing with respect to the full statement: the runs in
+which `exportStateData` was reached. Every call that fails before `b.exportStateData(d.s1)` (initialisation,
+bounds, missing operator, a priori / a posteriori factors, integration, exceptions in any of them, and the
+whole prediction branch) leaves `s1` untouched. -/
+theorem failed_before_export_leaves_s1_untouched_partial (v : Variant) (s : Script α)
+    (hexp : Event.exp ∉ (integrate v s).st.ev) :
+    ∀ o ∈ (integrate v s).written, o.isS1 = false := by
+  apply written_noS1
+  have hpre := pre_noS1 v s (st0 s) (by simp [st0, NoS1, AllEv, NotS1])
+  have hb : body v s (st0 s) = (pre v s (st0 s)).bind fun st =>
+      if v.lateExport then tailLate s (effK0 s.k0) st else tailEarly s (effK0 s.k0) st := rfl
+  cases hp : pre v s (st0 s) with
+  | next st =>
+    rw [hp] at hb hpre
+    simp only [R.bind] at hb
+    by_cases hl : v.lateExport = true
+    · -- repaired order: either the tail threw before the export, or `exp` is in the trace
+      have ht := tailLate_spec s (effK0 s.k0) st (by simpa [always] using hpre)
+      simp only [hl, if_true] at hb
+      simp only [integrate, hb] at hexp ⊢
+      cases hq : tailLate s (effK0 s.k0) st with
+      | next st' =>
+        exfalso
+        rw [hq] at hexp
+        exact hexp (tailLate_next_exported s _ st st' hq)
+      | ret c st' => rw [hq] at ht; simpa using ht
+      | thr m st' =>
+        rw [hq] at ht
+        simp only [R.sat_thr] at ht
+        simp_all [NoS1, AllEv, NotS1]
+    · exfalso
+      simp only [hl, Bool.false_eq_true, if_false] at hb
+      have h1 := (tailEarly_exported s (effK0 s.k0) st).trans (hb ▸ integrate_ev_of_body v s)
+      have : Event.exp ∈ (stepExportState st).ev := by simp [stepExportState]
+      exact hexp (h1.subset this)
+  | ret c st =>
+    rw [hp] at hb hpre
+    simp only [R.bind] at hb
+    simp only [integrate, hb]
+    simpa [always] using hpre
+  | thr m st =>
+    rw [hp] at hb hpre
+    simp only [R.bind] at hb
+    simp only [integrate, hb]
+    simp only [always, R.sat_thr] at hpre
+    simp_all [NoS1, AllEv, NotS1]
 
 end TfelVerif.C40.Props
